@@ -169,6 +169,7 @@ class State:
         self.qmode = None
         self.axs = set()
         self.dcache = {}
+        self.dec_ids = set()
 
     def clone(self):
         s = State(self.ctx)
@@ -180,6 +181,7 @@ class State:
         s.qmode = self.qmode
         s.axs = set(self.axs)
         s.dcache = dict(self.dcache)
+        s.dec_ids = set(self.dec_ids)
         return s
 
     # ---- environment ------------------------------------------------------------------------------------
